@@ -325,6 +325,16 @@ func ruleEncodeRO(c *Ctx) {
 								c.Oblige("X.ro", false, x.Pos(), name, "call "+f2.Name(), "encoders must not call memory-writing runtime primitives", nil)
 							}
 						}
+						// writes made through reflection (C11-r14-m3): a reflect.Value mutator on a Value that was not
+						// made by this function (reflect.New / MakeMap / MakeSlice / Zero and what is derived from it)
+						if f2.Pkg != nil && f2.Pkg.Pkg.Path() == "reflect" && reflectMutator(f2) {
+							fresh := false
+							if len(x.Common().Args) > 0 {
+								fresh = reflectFresh(x.Common().Args[0], 0)
+							}
+							c.Oblige("X.ro", fresh, x.Pos(), name, "call reflect."+f2.Name(),
+								"encoders must not write to the value being marshalled through reflection: the receiver of this reflect mutator is not a value the function made itself", nil)
+						}
 					}
 				}
 			}
@@ -876,4 +886,61 @@ func callersPassLocal(p *Prog, f *ssa.Function, prm *ssa.Parameter) bool {
 		}
 	}
 	return sites > 0
+}
+
+// reflectMutator: functions of package reflect that write to the memory a
+// reflect.Value refers to.
+func reflectMutator(f *ssa.Function) bool {
+	n := f.Name()
+	if f.Signature.Recv() != nil {
+		if typeName(f.Signature.Recv().Type()) != "Value" {
+			return false
+		}
+		if strings.HasPrefix(n, "Set") || n == "Clear" || n == "Grow" {
+			return true
+		}
+		return false
+	}
+	return n == "Copy"
+}
+
+// reflectFresh: v is a reflect.Value made by this function (New, MakeMap,
+// MakeSlice, MakeMapWithSize, Zero) or derived from one by Elem/Index/Field.
+func reflectFresh(v ssa.Value, depth int) bool {
+	if depth > 8 {
+		return false
+	}
+	switch x := v.(type) {
+	case *ssa.Call:
+		f := x.Common().StaticCallee()
+		if f == nil || f.Pkg == nil || f.Pkg.Pkg.Path() != "reflect" {
+			return false
+		}
+		switch f.Name() {
+		case "New", "MakeMap", "MakeMapWithSize", "MakeSlice", "Zero":
+			return f.Signature.Recv() == nil
+		case "Elem", "Index", "Field", "FieldByName", "FieldByIndex":
+			if f.Signature.Recv() != nil && len(x.Common().Args) > 0 {
+				return reflectFresh(x.Common().Args[0], depth+1)
+			}
+		}
+	case *ssa.UnOp:
+		if x.Op == token.MUL {
+			if a, ok := x.X.(*ssa.Alloc); ok {
+				// a spilled local holding one value
+				var stored ssa.Value
+				n := 0
+				for _, r := range *a.Referrers() {
+					if st, ok := r.(*ssa.Store); ok && st.Addr == ssa.Value(a) {
+						stored = st.Val
+						n++
+					}
+				}
+				if n == 1 {
+					return reflectFresh(stored, depth+1)
+				}
+			}
+		}
+	}
+	return false
 }
